@@ -110,7 +110,7 @@ theorem C12_stop (A : Matrix (Fin n) (Fin n) 𝕜) (P : Option (Matrix (Fin n) (
 `‖b‖`, as long as no guard is active: `r̂_k = (b - A x_k) / ‖b‖` -/
 theorem C12_residual_true {A : Matrix (Fin n) (Fin n) 𝕜} (hA : A.PosDef)
     {P : Option (Matrix (Fin n) (Fin n) 𝕜)} (hP : PrecPosDef P)
-    (B X0 : Fin m → EuclideanSpace 𝕜 (Fin n)) (j : Fin m) (k : ℕ) (hb : smallR ≤ ‖B j‖)
+    (B X0 : Fin m → EuclideanSpace 𝕜 (Fin n)) (j : Fin m) (k : ℕ) (hb : B j ≠ 0)
     (hg : GuardsOffN (Matrix.toEuclideanLin A) (precLin P) smallR (B j) (X0 j) k) :
     (colState A P B X0 j k).r =
       (((‖B j‖ : ℝ) : 𝕜))⁻¹ • (B j - Matrix.toEuclideanLin A
@@ -131,34 +131,18 @@ example : ∃ (B X0 : Fin 2 → EuclideanSpace ℝ (Fin 2)) (j : Fin 2), B j = 0
     show exb ≠ 0
     intro h; have := exb_norm; rw [h, norm_zero] at this; exact zero_ne_one this⟩
 
-/-- **linear scaling with `b`** (`x0 = None`, `c > 0`): the statement that is true of the model —
-every column is zero or has `‖b_j‖ ≥ 1e-40` and `c ‖b_j‖ ≥ 1e-40` (for `0 < ‖b_j‖ < 1e-40` the
-guarded division by `mult` rescales the system by `1e-40` but the result by `‖b_j‖`, and linearity
-fails).  Then the run on `c • b` makes the same steps, reports the same `info` and returns
-`c •` the solution. -/
+/-- **linear scaling with `b`** (`x0 = None`, any real `c > 0`, no further hypothesis): the run on
+`c • b` makes the same steps, reports the same `info` and returns `c •` the solution. -/
 theorem C12_scale (A : Matrix (Fin n) (Fin n) 𝕜) (P : Option (Matrix (Fin n) (Fin n) 𝕜))
-    (B : Fin m → EuclideanSpace 𝕜 (Fin n)) {c : ℝ} (hc : 0 < c)
-    (hB : ∀ j, B j = 0 ∨ (smallR ≤ ‖B j‖ ∧ smallR ≤ c * ‖B j‖)) (maxIters : ℕ) (tol : 𝕜) :
+    (B : Fin m → EuclideanSpace 𝕜 (Fin n)) {c : ℝ} (hc : 0 < c) (maxIters : ℕ) (tol : 𝕜) :
     let res := cg (matArr A) (colsArr B) none (P.map matArr) tol maxIters
     let res' := cg (matArr A) (colsArr (fun j => (c : 𝕜) • B j)) none (P.map matArr) tol maxIters
     res'.k = res.k ∧ res'.info = res.info ∧
       res.x = colsArr (xOut A P B (zeroCols 𝕜 n m) maxIters tol) ∧
       res'.x = colsArr (fun j => (c : 𝕜) • xOut A P B (zeroCols 𝕜 n m) maxIters tol j) :=
-  cg_scale A P B hc hB maxIters tol
+  cg_scale A P B hc maxIters tol
 
-example : ∃ (B : Fin 2 → EuclideanSpace ℝ (Fin 2)) (c : ℝ), 0 < c ∧ B 1 ≠ 0 ∧
-    ∀ j, B j = 0 ∨ (smallR ≤ ‖B j‖ ∧ smallR ≤ c * ‖B j‖) := by
-  refine ⟨![0, exb], 3, by norm_num, ?_, ?_⟩
-  · show exb ≠ 0
-    intro h; have := exb_norm; rw [h, norm_zero] at this; exact zero_ne_one this
-  · intro j
-    fin_cases j
-    · left; rfl
-    · right
-      show smallR ≤ ‖exb‖ ∧ smallR ≤ 3 * ‖exb‖
-      rw [exb_norm]
-      have := smallR_le_one
-      constructor <;> linarith
+example : ∃ c : ℝ, 0 < c ∧ c ≠ 1 := ⟨3, by norm_num, by norm_num⟩
 
 /-- **columns**: column `j` of a batched run that made `t` steps equals the single-column run of
 `t` steps (`max_iters = t`, `tol = 0`) on `(b_j, x0_j)`: the only coupling between the columns is
@@ -189,29 +173,31 @@ theorem C12_guards_positive {E : Type*} [NormedAddCommGroup E] [InnerProductSpac
 system (the normalisation by `‖b‖` is invisible) -/
 theorem C12_is_textbook_cg (A : Matrix (Fin n) (Fin n) 𝕜) (P : Option (Matrix (Fin n) (Fin n) 𝕜))
     (B X0 : Fin m → EuclideanSpace 𝕜 (Fin n)) (maxIters : ℕ) (tol : 𝕜) (j : Fin m)
-    (hb : smallR ≤ ‖B j‖)
+    (hb : B j ≠ 0)
     (hg : GuardsOffN (Matrix.toEuclideanLin A) (precLin P) smallR (B j) (X0 j)
       (runBatchedCG (matArr A) (colsArr B) (colsArr X0) maxIters tol (P.map matArr)).k) :
     xOut A P B X0 maxIters tol j =
       (cgSeq (Matrix.toEuclideanLin A) (precLin P) (B j) (X0 j)
         (runBatchedCG (matArr A) (colsArr B) (colsArr X0) maxIters tol (P.map matArr)).k).x := by
   rw [run_k] at hg ⊢
-  exact gRun_eq_cgSeq smallR_pos hb hg
+  exact gRun_eq_cgSeq hb hg
 
 /-- **Krylov optimality** (𝕜 = ℝ or ℂ, any `n`, any number of columns, any `x0`, any
 `max_iters`, `tol`).  `A` Hermitian positive definite, preconditioner `None` or Hermitian positive
-definite; column `j` with `‖b_j‖ ≥ 1e-40` and no guard active during the `k` steps the loop made.
-Then the returned column lies in `x0 + K_k(MA, M r0)`, its energy `re ⟪x* - ·, A (x* - ·)⟫` (squared
-`A`-norm of the error) is minimal over that set, and it is the ONLY minimiser.
+definite; column `j` with `b_j ≠ 0` (zero columns: `C12_zero`) and no guard of `take_cg_step` active
+during the `k` steps the loop made.  Then the returned column lies in `x0 + K_k(MA, M r0)`, its
+energy `re ⟪x* - ·, A (x* - ·)⟫` (squared `A`-norm of the error) is minimal over that set, and it is
+the ONLY minimiser.
 
-Full statement of the property: the same without the hypotheses `hb`, `hg`.  It is false of the code
-and of the model when a guard acts (e.g. `0 < ‖b_j‖ < 1e-40`: the system is divided by `1e-40` but
-the result multiplied by `‖b_j‖`); `hb`/`hg` say exactly "no guard acts", and by
-`C12_guards_positive` a guard can only act on a quantity below `1e-40`. -/
+Full statement of the property: the same without the hypothesis `hg`.  It is false of the code and
+of the model once a guard acts (the mask freezes a column whose residual is below `1e-40` relative
+to `‖b‖`, the guarded divisions replace denominators below `1e-40`): `hg` says exactly "no guard
+acts", and by `C12_guards_positive` a guard can only act on a quantity below `1e-40` — it never
+sees a zero or negative denominator while the residual is non-zero. -/
 theorem C12_optimal {A : Matrix (Fin n) (Fin n) 𝕜} (hA : A.PosDef)
     {P : Option (Matrix (Fin n) (Fin n) 𝕜)} (hP : PrecPosDef P)
     (B X0 : Fin m → EuclideanSpace 𝕜 (Fin n)) (maxIters : ℕ) (tol : 𝕜) (j : Fin m)
-    (hb : smallR ≤ ‖B j‖)
+    (hb : B j ≠ 0)
     (hg : GuardsOffN (Matrix.toEuclideanLin A) (precLin P) smallR (B j) (X0 j)
       (runBatchedCG (matArr A) (colsArr B) (colsArr X0) maxIters tol (P.map matArr)).k)
     {xs : EuclideanSpace 𝕜 (Fin n)} (hxs : Matrix.toEuclideanLin A xs = B j) :
@@ -232,7 +218,7 @@ theorem C12_optimal {A : Matrix (Fin n) (Fin n) 𝕜} (hA : A.PosDef)
 /-- the hypotheses of `C12_optimal` hold for `A = diag(2, 3)`, `b = e₀`, `x0 = 0`, no
 preconditioner, `max_iters = 1`, `tol = 1/2` (and the exact solution exists) -/
 example :
-    exA.PosDef ∧ PrecPosDef (none : Option (Matrix (Fin 2) (Fin 2) ℝ)) ∧ smallR ≤ ‖oneCol exb 0‖ ∧
+    exA.PosDef ∧ PrecPosDef (none : Option (Matrix (Fin 2) (Fin 2) ℝ)) ∧ oneCol exb 0 ≠ 0 ∧
     GuardsOffN (Matrix.toEuclideanLin exA) (precLin none) smallR (oneCol exb 0)
       (oneCol (0 : EuclideanSpace ℝ (Fin 2)) 0)
       (runBatchedCG (matArr exA) (colsArr (oneCol exb))
@@ -240,8 +226,8 @@ example :
         ((none : Option (Matrix (Fin 2) (Fin 2) ℝ)).map matArr)).k ∧
     Matrix.toEuclideanLin exA exxs = oneCol exb 0 := by
   refine ⟨exA_posDef, (fun _ h => by cases h), ?_, ex_guards _ (C12_cap _ _ _ _ _ _), exxs_solves⟩
-  show smallR ≤ ‖exb‖
-  rw [exb_norm]; exact smallR_le_one
+  show exb ≠ 0
+  intro h; have := exb_norm; rw [h, norm_zero] at this; exact zero_ne_one this
 
 end exact
 
